@@ -339,7 +339,8 @@ impl Run {
     }
     /// vacuity guard: a failed requirement is a machinery failure (exit 2), never a verdict
     pub fn require(&self, cond: bool, msg: &str) {
-        if !cond {
+        // vacuity guards are about full runs, not about the replay of one case
+        if !cond && self.args.replay.is_none() {
             self.machinery.lock().unwrap().push(msg.to_string());
         }
     }
@@ -431,6 +432,16 @@ impl Run {
                             slot.idx.store(u64::MAX, Ordering::SeqCst);
                             if slot.lost.load(Ordering::SeqCst) {
                                 return; // the watchdog already reported this case and replaced us
+                            }
+                            if !out.viols.is_empty() {
+                                // the description of the case travels with the violation (replay of BFS states
+                                // rebuilds the state from it)
+                                let case = pan::catch(|| sub.describe(idx)).unwrap_or(Value::Null);
+                                for (_, d) in out.viols.iter_mut() {
+                                    if let Some(o) = d.as_object_mut() {
+                                        o.entry("_case").or_insert(case.clone());
+                                    }
+                                }
                             }
                             local.absorb_case(&name, idx, out);
                         }
@@ -528,11 +539,22 @@ impl Run {
 
     /// Re-execute one recorded case twice; returns the violation signatures seen (identical both times or exit 2).
     pub fn replay(self: &Arc<Self>, subs: &[Arc<dyn Sub>], path: &str) -> ! {
+        self.try_replay(subs, path);
+        die("the replay file names a level of a breadth-first search that this binary did not reach")
+    }
+
+    /// Replays a case of an indexable sub-space and exits; returns only when the file names a level of a
+    /// breadth-first search (those are replayed by `bfs_r`, from the recorded state description).
+    pub fn try_replay(self: &Arc<Self>, subs: &[Arc<dyn Sub>], path: &str) {
         let txt = std::fs::read_to_string(path).unwrap_or_else(|e| die(&format!("cannot read replay file {path}: {e}")));
         let v: Value = serde_json::from_str(&txt).unwrap_or_else(|e| die(&format!("bad replay file: {e}")));
         let name = v["sub"].as_str().unwrap_or("");
         let idx = v["idx"].as_u64().unwrap_or(0);
-        let sub = subs.iter().find(|s| s.name() == name).unwrap_or_else(|| die(&format!("no sub-space named {name} in this tier/seed (replay with the tier and seed recorded in the file)")));
+        let found = subs.iter().find(|s| s.name() == name);
+        if found.is_none() && name.rsplit('/').next().map(|l| l.starts_with("depth")).unwrap_or(false) {
+            return;
+        }
+        let sub = found.unwrap_or_else(|| die(&format!("no sub-space named {name} in this tier/seed (replay with the tier and seed recorded in the file)")));
         let mut seen: Vec<Vec<String>> = vec![];
         for _ in 0..2 {
             let (tx, rx) = std::sync::mpsc::channel();
@@ -580,6 +602,9 @@ impl Run {
 
     /// Write evidence, print verdict lines, exit.
     pub fn finish(self: &Arc<Self>) -> ! {
+        if self.args.replay.is_some() {
+            die("the replay file names no case that this binary can rebuild (violations reported outside an indexable sub-space or search level carry their inputs in the detail)");
+        }
         let t = std::mem::take(&mut *self.total.lock().unwrap());
         let prop = self.args.prop.clone();
         let root = self.args.root.clone();
@@ -766,7 +791,22 @@ pub struct BfsStats {
     pub frontier_sizes: Vec<usize>,
 }
 
-pub fn bfs<S, K, F, KF, DF>(
+pub fn bfs<S, K, F, KF, DF>(run: &Arc<Run>, name: &str, init: Vec<S>, max_depth: usize, max_states: usize, timeout_s: u64, step: F, key: KF, describe: DF) -> BfsStats
+where
+    S: Clone + Send + Sync + 'static,
+    K: std::hash::Hash + Eq + Send + 'static,
+    F: Fn(&S, bool, &mut CaseOut) -> Vec<S> + Send + Sync + 'static,
+    KF: Fn(&S) -> K + Send + Sync + 'static,
+    DF: Fn(&S) -> Value + Send + Sync + 'static,
+{
+    bfs_r(run, name, init, max_depth, max_states, timeout_s, step, key, describe, |_| None)
+}
+
+/// `bfs` with replay support: `decode` rebuilds a state from the value `describe` produced for it. With
+/// `--replay <file>` naming a level of this search, the recorded state is rebuilt and its step is executed
+/// twice without the explorer (the order of a BFS frontier depends on the workers, so the index alone does
+/// not identify a state - its description does).
+pub fn bfs_r<S, K, F, KF, DF, RF>(
     run: &Arc<Run>,
     name: &str,
     init: Vec<S>,
@@ -776,6 +816,7 @@ pub fn bfs<S, K, F, KF, DF>(
     step: F,
     key: KF,
     describe: DF,
+    decode: RF,
 ) -> BfsStats
 where
     S: Clone + Send + Sync + 'static,
@@ -783,7 +824,48 @@ where
     F: Fn(&S, bool, &mut CaseOut) -> Vec<S> + Send + Sync + 'static,
     KF: Fn(&S) -> K + Send + Sync + 'static,
     DF: Fn(&S) -> Value + Send + Sync + 'static,
+    RF: Fn(&Value) -> Option<S>,
 {
+    if let Some(path) = run.args.replay.clone() {
+        let txt = std::fs::read_to_string(&path).unwrap_or_else(|e| die(&format!("cannot read replay file {path}: {e}")));
+        let v: Value = serde_json::from_str(&txt).unwrap_or_else(|e| die(&format!("bad replay file: {e}")));
+        let sub = v["sub"].as_str().unwrap_or("").to_string();
+        if let Some(rest) = sub.strip_prefix(&format!("{name}/depth")) {
+            let depth: usize = rest.parse().unwrap_or(0);
+            let st = decode(&v["detail"]["_case"]).unwrap_or_else(|| die("the replay file does not carry a state description this search can rebuild"));
+            let mut seen: Vec<Vec<String>> = vec![];
+            for _ in 0..2 {
+                let mut out = CaseOut::default();
+                if let Err(p) = pan::catch(|| step(&st, depth < max_depth, &mut out)) {
+                    out.violation(format!("uncaught panic in {}: {}", name, p.class()), json!({}));
+                }
+                for (s, d) in out.viols.iter() {
+                    println!("replay: {} :: {}", s, d);
+                }
+                seen.push(out.viols.into_iter().map(|x| x.0).collect());
+            }
+            if seen[0] != seen[1] {
+                die("replay observed two different outcomes for the same state (uncontrolled nondeterminism)");
+            }
+            println!("replay state: {}", describe(&st));
+            if seen[0].is_empty() {
+                println!("replay: no violation for the recorded state of {}", sub);
+                std::process::exit(0);
+            }
+            let mut unknown = false;
+            for s in seen[0].iter() {
+                if let Some(k) = run.match_known(s) {
+                    println!("KNOWN-FINDING: property={} {}", run.args.prop, k);
+                } else {
+                    unknown = true;
+                    println!("VIOLATION property={} replay={}", run.args.prop, path);
+                }
+            }
+            std::process::exit(if unknown { 1 } else { 0 });
+        }
+        // a replay that names another search: nothing to do here
+        return BfsStats { states: 0, transitions: 0, depth_completed: 0, frontier_sizes: vec![] };
+    }
     let step = Arc::new(step);
     let describe = Arc::new(describe);
     let mut seen: HashSet<K> = HashSet::new();
